@@ -198,6 +198,13 @@ Definition history_events (cmds : list cmd) (w : world) : list event := wlog (ru
 (* a version is installed: the four files are there and the agent executable answers --version *)
 Definition installed (w : world) : bool :=
   forallb (fun l => fs_has l (wfs w)) sys_locs && version_ok SysExe w.
+Definition four_present (w : world) : bool := forallb (fun l => fs_has l (wfs w)) sys_locs.
+(* KNOWN FINDING C17-K1 (known_findings.d/C17.json): all four files are installed but the agent
+   executable does not answer `--version`.  `restore` runs the backed-up copy of it AFTER
+   `systemctl stop` and panics when that fails (running.rs proxy_agent_version_target_folder), so
+   the newer files stay and the service stays stopped. *)
+Definition KnownClass_C17_agent_not_runnable (w : world) : bool :=
+  four_present w && negb (version_ok SysExe w).
 (* a complete package sits beside the tool *)
 Definition package_complete (w : world) : bool :=
   forallb (fun l => fs_has l (wfs w)) pkg_locs && version_ok PkgExe w.
